@@ -622,6 +622,8 @@ template <class Mesh> struct HistRun {
     void op_sweep(R &r, const Op &q);
     void op_set_pos(R &r, const Op &q);
     void op_big(R &r, const Op &q);
+    void op_big_valence(R &r, const Op &q);
+    bool post_op_light = false;
     void op_open_cell(R &r, const Op &q);
     void io_refresh(R &r, int seed, bool ascii);
     template <class Dst> std::string compare_loaded(const Dst &d, R &r, bool ascii, bool cells_as_sets);
@@ -646,7 +648,7 @@ template <class Mesh> struct HistRun {
         else if (k == "P_POS_PERSIST") { ow_struct = {"C13", "C14"}; }
         else if (has("FORK") || k == "DESTROY" || k == "USE") { ow_struct = {"C13"}; ow_props.push_back("C13"); }
         else if (k == "COLLAPSE") ow_struct = {"C15"};
-        else if (k == "RESTART" || k == "ROUNDTRIP" || k == "BIG" || k == "SET_POS" || k == "OPEN_CELL") ow_struct = {"C06"};
+        else if (k == "RESTART" || k == "ROUNDTRIP" || k == "BIG" || k == "BIG_VALENCE" || k == "SET_POS" || k == "OPEN_CELL") ow_struct = {"C06"};
         else if (k == "FAULT_LOAD") ow_struct = {"C07"};
         else if (k == "SWEEP") ow_struct = {"C18"};
         else ow_struct = {"C02"};
@@ -691,6 +693,7 @@ template <class Mesh> struct HistRun {
         else if (k == "SWEEP") op_sweep(r, q);
         else if (k == "SET_POS") op_set_pos(r, q);
         else if (k == "BIG") op_big(r, q);
+        else if (k == "BIG_VALENCE") op_big_valence(r, q);
         else if (k == "OPEN_CELL") op_open_cell(r, q);
         else if (k == "OBSERVE") {}
         else throw Inconclusive{"unknown op " + k};
